@@ -172,6 +172,27 @@ CHECKS = {
              "of the other rules at every site is decided per document, not proved.",
         note="Trusted: as C06. Documents with non-executable definitions are outside the document model (engine side only).",
         design="4 C07"),
+    "C11": dict(
+        technique="Coq theorems on the model of what the built schema object reports + round trip model -> SDL (4 ways) -> real "
+                  "engine -> introspection compared inside Coq",
+        text="Model/Introspect.v computes from the schema object of the build model (definitions, merged extensions, built-ins) "
+             "what __schema / __type report. Proved for every SDL model that builds: reported type names are exactly the declared "
+             "ones plus the built-in scalars (nothing missing, nothing extra, no meta type); __type(name:) returns the entry of "
+             "__schema.types and null for unknown names; includeDeprecated filters exactly the deprecated members; possibleTypes "
+             "of an interface are exactly the objects declaring it (extensions included, any declaration order); reported fields "
+             "are exactly the declared and extension-added fields that are neither injected `__` fields nor hidden by "
+             "@nonIntrospectable; the interface field-type check of the build IS IsValidImplementationFieldType (covariant "
+             "implementations build). The check prints generated models (all kinds, wrappers, defaults, several implementers "
+             "declared before/after the interface, covariant implementations, unions, extensions of every kind incl. `extend "
+             "schema` without operations, @deprecated with/without reason, @nonIntrospectable) as SDL supplied as string, file, "
+             "list of files and directory (with/without trailing newline, ending in comment lines), runs the standard "
+             "introspection query on the real engine and compares the whole result with the model inside Coq; on the engine "
+             "alone: the four ways agree, __type agrees with __schema.types, includeDeprecated:false is the filtered list, "
+             "reasons match, a @nonIntrospectable schema refuses introspection. PARTIAL: lark grammar/transformers, file "
+             "handling and the executor walking schema objects are exercised, not modelled; default values compared for "
+             "presence.",
+        note="Trusted: Coq kernel, generators, SDL printer. __typename = concrete object type is covered by C01's check.",
+        design="4 C11"),
     "C12": dict(
         technique="Coq theorems on the model of the schema build (completeness of the validators, soundness of the interface "
                   "type check) + SDL-level violation catalogue judged by specification predicates in Coq and run through "
